@@ -59,6 +59,15 @@ func checkC17(c *Ctx, r *Result, tier string) {
 					return
 				}
 				okc, why := ce.contained(fn, st, o, in, ci.Common().Args[idx], 0)
+				if !okc {
+					// the file call in a helper that is handed the path (readImport(path, importPath)): the
+					// containment is owed, path by path, at every call of the helper
+					if p, isParam := st.canon(ci.Common().Args[idx]).(*ssa.Parameter); isParam && p.Parent() == fn {
+						if ok2, why2 := c17OwedAtCallSites(c, ce, fn, p); ok2 {
+							okc, why = true, why2
+						}
+					}
+				}
 				if okc {
 					okSites[in] = why
 				} else if _, dup := bad[in]; !dup {
@@ -202,4 +211,53 @@ func prefixIsDotDotSep(v ssa.Value) bool {
 	}
 	walk(v, 0)
 	return hasDots && hasSep
+}
+
+// c17OwedAtCallSites: fn is not exported, every call of it is a static call inside the module, and at each of
+// them the argument bound to p is established to lie inside the root on every path that reaches the call.
+func c17OwedAtCallSites(c *Ctx, ce *containment, fn *ssa.Function, p *ssa.Parameter) (bool, string) {
+	if o := fn.Object(); o == nil || o.Exported() {
+		return false, ""
+	}
+	idx := paramIndex(fn, p)
+	node := c.CHA().Nodes[fn]
+	if idx < 0 || node == nil {
+		return false, ""
+	}
+	sites := 0
+	for _, e := range node.In {
+		if e.Caller.Func != nil && e.Caller.Func.Synthetic != "" {
+			continue
+		}
+		if e.Site == nil || e.Caller.Func == nil || !c.inModule(e.Caller.Func) || e.Site.Common().StaticCallee() != fn {
+			return false, ""
+		}
+		if _, isCall := e.Site.(*ssa.Call); !isCall {
+			return false, "" // go / defer: not at a point of a path
+		}
+		args := e.Site.Common().Args
+		if idx >= len(args) {
+			return false, ""
+		}
+		caller, site := e.Caller.Func, e.Site
+		good, reached := true, false
+		o := &PathOracle{}
+		o.Visit = func(st *PState, in ssa.Instruction) {
+			if in != ssa.Instruction(site) {
+				return
+			}
+			reached = true
+			if ok, _ := ce.contained(caller, st, o, in, args[idx], 0); !ok {
+				good = false
+			}
+		}
+		if !ExplorePaths(caller, o) || !good || !reached {
+			return false, ""
+		}
+		sites++
+	}
+	if sites == 0 {
+		return false, ""
+	}
+	return true, fmt.Sprintf("the path is the parameter %s of an unexported helper; at each of its %d call site(s) the argument is established to lie inside the root on every path", p.Name(), sites)
 }
